@@ -70,6 +70,8 @@ pub struct Debit {
     pub from: Address,
     pub balance_before: U256,
     pub value: U256,
+    /// 0 call value, 1 create endowment, 2 self-destruct
+    pub kind: u8,
 }
 
 #[derive(Default)]
@@ -104,7 +106,7 @@ impl<CTX: ContextTr> Inspector<CTX> for TransferInspector {
             if !v.is_zero() {
                 let (d, bal) = is_delegated(ctx, inputs.caller);
                 if d {
-                    recs.push(Debit { from: inputs.caller, balance_before: bal, value: v });
+                    recs.push(Debit { from: inputs.caller, balance_before: bal, value: v, kind: 0 });
                 }
             }
         }
@@ -131,7 +133,7 @@ impl<CTX: ContextTr> Inspector<CTX> for TransferInspector {
         if self.depth > 0 && !inputs.value().is_zero() {
             let (d, bal) = is_delegated(ctx, inputs.caller());
             if d {
-                recs.push(Debit { from: inputs.caller(), balance_before: bal, value: inputs.value() });
+                recs.push(Debit { from: inputs.caller(), balance_before: bal, value: inputs.value(), kind: 1 });
             }
         }
         self.frames.push(recs);
@@ -168,7 +170,7 @@ impl<CTX: ContextTr> Inspector<CTX> for TransferInspector {
         // the executing account's whole balance leaves it; delegation is decided afterwards
         if contract != target && !value.is_zero() {
             if let Some(cur) = self.frames.last_mut() {
-                cur.push(Debit { from: contract, balance_before: value, value });
+                cur.push(Debit { from: contract, balance_before: value, value, kind: 2 });
             }
         }
     }
@@ -198,6 +200,9 @@ pub struct C13Stats {
     pub funding_invariant_accounts: u64,
     pub forced_reverts_with_auth_refund: u64,
     pub forced_reverts_of_create_txs: u64,
+    pub debits_call_value: u64,
+    pub debits_create_endowment: u64,
+    pub debits_selfdestruct: u64,
 }
 
 /// Walk the block in order on the policy-on prefix state and check the three layers of C13
@@ -256,6 +261,11 @@ pub fn check_reserve(sc: &Scenario, m: &Materialised, txs: &[TxEnv], seq: &Grevm
                     let delegated = off.state.get(&d.from).and_then(|a| a.info.code.as_ref()).map_or(false, |c| c.is_eip7702());
                     if !delegated {
                         continue;
+                    }
+                    match d.kind {
+                        0 => stats.debits_call_value += 1,
+                        1 => stats.debits_create_endowment += 1,
+                        _ => stats.debits_selfdestruct += 1,
                     }
                     if !first.iter().any(|(a, _)| *a == d.from) {
                         first.push((d.from, d.balance_before));
